@@ -247,6 +247,25 @@ func ruleCapture(c *Ctx) *RuleResult {
 	}
 	savePos := c.pos(c.Fn("(*graph/search.GraphIterator).Save").Pos())
 	loadPos := c.pos(c.Fn("graph/search.Load").Pos())
+	// the iterator Load builds is the result of WithPruning, or a fresh GraphIterator (possibly made
+	// by an unexported constructor helper whose data movements are read in Load's terms)
+	iterRoots := []string{"WithPruning()", "new(GraphIterator)"}
+	loadHas := func(field, src string) bool {
+		for _, root := range iterRoots {
+			if hasTransfer(load, root+"."+field, src) {
+				return true
+			}
+		}
+		return false
+	}
+	isIterPath := func(p string) bool {
+		for _, root := range iterRoots {
+			if strings.HasPrefix(p, root+".") {
+				return true
+			}
+		}
+		return false
+	}
 
 	doField := func(owner string, path string, name string, t types.Type, table map[string]fieldClass) {
 		fc, ok := table[name]
@@ -272,21 +291,28 @@ func ruleCapture(c *Ctx) *RuleResult {
 						dst, src = dst+"[*]", src+"[*]"
 					}
 					r.inst("restore %s <- %s", dst, src)
-					check(hasTransfer(load, dst, src), "graph/search.Load:"+f.Name()+" of the graph not restored", loadPos, "Load does not restore %s from %s", dst, src)
+					check(loadHas(strings.TrimPrefix(dst, "WithPruning()."), src), "graph/search.Load:"+f.Name()+" of the graph not restored", loadPos, "Load does not restore %s from %s", dst, src)
 				}
 			} else if fc.param != "" {
-				check(hasTransfer(load, "WithPruning("+fc.param+")", "new(save)."+fc.record), "graph/search.Load:"+fc.record+" not passed on", loadPos, "Load does not pass record field %s to WithPruning(%s)", fc.record, fc.param)
+				// either stored into the new iterator directly (by Load or a constructor helper it calls), or
+				// handed to WithPruning, which stores it
+				direct := loadHas(path+name, "new(save)."+fc.record)
+				viaWP := hasTransfer(load, "WithPruning("+fc.param+")", "new(save)."+fc.record)
+				check(direct || viaWP, "graph/search.Load:"+fc.record+" not passed on", loadPos, "Load neither stores record field %s into the iterator's %s nor passes it to WithPruning(%s)", fc.record, name, fc.param)
 				check(hasTransfer(wp, "new(GraphIterator)."+name, fc.param), "graph/search.WithPruning:"+name+" not set", loadPos, "WithPruning does not store its parameter %s into iter.%s", fc.param, name)
 			} else {
-				check(hasTransfer(load, loadedPath, "new(save)."+fc.record), "graph/search.Load:"+fc.record+" not restored", loadPos, "Load does not restore %s from the record field %s", loadedPath, fc.record)
+				check(loadHas(path+name, "new(save)."+fc.record), "graph/search.Load:"+fc.record+" not restored", loadPos, "Load does not restore %s from the record field %s", loadedPath, fc.record)
 			}
 		case "resupplied":
-			check(hasTransfer(load, "WithPruning("+fc.param+")", fc.param), "graph/search.Load:"+fc.param+" not passed on", loadPos, "Load does not pass its parameter %s to WithPruning", fc.param)
+			check(loadHas(path+name, fc.param) || hasTransfer(load, "WithPruning("+fc.param+")", fc.param), "graph/search.Load:"+fc.param+" not passed on", loadPos, "Load neither stores its parameter %s into the iterator nor passes it to WithPruning", fc.param)
 			check(hasTransfer(wp, "new(GraphIterator)."+name, fc.param), "graph/search.WithPruning:"+name+" not set", loadPos, "WithPruning does not store its parameter %s", fc.param)
 		case "derived", "cache":
 			for _, t := range load {
-				if strings.HasSuffix(t.dst, "."+name) && strings.HasPrefix(t.dst, "WithPruning()") {
+				if strings.HasSuffix(t.dst, "."+name) && isIterPath(t.dst) {
 					ok := fc.class == "cache" && t.src == "nil"
+					if fc.class == "derived" && sameDerivation(c, t.in, name) {
+						ok = true // recomputed by the formula WithPruning uses, from the restored inputs
+					}
 					check(ok, "graph/search.Load:writes "+fc.class+" field "+name, c.instrPos(t.in), "Load writes the %s field %s (from %s); it must be left to be recomputed", fc.class, name, t.src)
 				}
 			}
@@ -339,6 +365,72 @@ func ruleCapture(c *Ctx) *RuleResult {
 		}
 	}
 	return r
+}
+
+// sameDerivation: the store `in` (in Load, or in a constructor helper Load calls) assigns the derived
+// field `name` a value that is the same polynomial of the restored configuration as the one
+// WithPruning stores into that field of its parameters (n -> the record's N, ...).
+func sameDerivation(c *Ctx, in ssa.Instruction, name string) bool {
+	load := c.Fn("graph/search.Load")
+	wp := c.Fn("graph/search.WithPruning")
+	if call, isCall := in.(*ssa.Call); isCall && call.Call.StaticCallee() == wp {
+		return true // Load goes through WithPruning: the derivation itself
+	}
+	st, ok := in.(*ssa.Store)
+	if !ok {
+		return false
+	}
+	if st.Parent() != load {
+		return false
+	}
+	// WithPruning's store to the same field
+	var wv ssa.Value
+	for _, b := range wp.Blocks {
+		for _, i2 := range b.Instrs {
+			if s2, ok := i2.(*ssa.Store); ok {
+				if fa, ok := s2.Addr.(*ssa.FieldAddr); ok {
+					stt := fa.X.Type().Underlying().(*types.Pointer).Elem().Underlying().(*types.Struct)
+					if stt.Field(fa.Field).Name() == name {
+						wv = s2.Val
+					}
+				}
+			}
+		}
+	}
+	if wv == nil {
+		return false
+	}
+	// Load's value for each parameter of WithPruning: the record field that restores it, or Load's own parameter
+	args := make([]ssa.Value, len(wp.Params))
+	for i, p := range wp.Params {
+		for fname, fc := range c04Iter {
+			_ = fname
+			if fc.param != p.Name() {
+				continue
+			}
+			if fc.class == "resupplied" {
+				for _, lp := range load.Params {
+					if lp.Name() == fc.param {
+						args[i] = lp
+					}
+				}
+				continue
+			}
+			for _, b := range load.Blocks {
+				for _, i2 := range b.Instrs {
+					if ld, ok := i2.(*ssa.UnOp); ok && ld.Op == token.MUL && pathOfVal(c, ld) == "new(save)."+fc.record && args[i] == nil {
+						args[i] = ld
+					}
+				}
+			}
+		}
+		if args[i] == nil {
+			return false
+		}
+	}
+	PW, PL := NewProver(c, wp), NewProver(c, load)
+	t, ok := translatePolyX(PW, PW.poly(wv), wp, PL, args, nil)
+	return ok && t.key() == PL.poly(st.Val).key()
 }
 
 // ruleGobFields: every field of the record type and of every struct reachable from it is exported
